@@ -6,6 +6,7 @@ mod dsu;
 mod reader;
 mod writer;
 mod segtree;
+mod treap;
 
 use util::arg_value;
 
@@ -28,6 +29,12 @@ fn main() {
         ("reader", "record") => reader::record(seed, &tier, &out),
         ("segtree", "replay") => segtree::replay(&args[3], &out, &arg_value(&args, "--focus").unwrap_or_else(|| "all".into())),
         ("segtree", "record") => segtree::record(seed, &tier, &out),
+        ("treap", "replay") => treap::replay(&args[3], &out),
+        ("treap", "record") => treap::record(seed, &tier, &out),
+        ("treap", "record-solo") => treap::record_solo(arg_value(&args, "--n").unwrap().parse().unwrap(), &out),
+        ("treap", "record-race") => treap::record_race(seed, arg_value(&args, "--threads").unwrap().parse().unwrap(),
+                                                       arg_value(&args, "--draws").unwrap().parse().unwrap(), &out),
+        ("treap", "record-shape") => treap::record_shape(seed, &tier, &out),
         ("writer", "replay") => writer::replay(&args[3], &out),
         ("writer", "record") => writer::record(seed, &tier, &out),
         _ => {
